@@ -311,6 +311,11 @@ def gen_word(rng):
     if k < 0.38:
         t = rng.choice(["{a}", "{a,b", "a,b}", "{}", "}{", "{a}{b}", "x{a}y", "{,", "a{b", "{a}b,c", "{a},{b}", "x{a},y{b}", "a,{b}", "{a}{b,c}", "{a,b}{c}"])
         return {"kind": "brace", "text": t, "feat": "negative-no-list"}
+    if k < 0.41:
+        # the ends of the range parser's number type: the sequence must stop at the bound, not run past it
+        t = rng.choice(["{2147483646..2147483647}", "{-2147483647..-2147483648}", "{1..3..2147483647}", "{2147483640..2147483647..5}",
+                        "p{2147483645..2147483647..2}s"])
+        return {"kind": "range", "text": t, "feat": "ends-of-the-number-type"}
     if k < 0.58:
         a = rng.choice([0, 1, 3, 5, 9, 10, -2, -5, 12])
         b = rng.choice([0, 1, 3, 5, 9, 10, -2, -5, 12])
